@@ -121,10 +121,29 @@ class _Subst(ast.NodeTransformer):
             return ast.copy_location(ast.Name(id=self.rename[n.id], ctx=n.ctx), n)
         return n
 
+    def _inner(self, params, body_nodes):
+        """substitute inside a nested scope: names bound there (its parameters) shadow the mapping"""
+        shadow = set(params)
+        sub = _Subst({k: v for k, v in self.mapping.items() if k not in shadow},
+                     {k: v for k, v in self.rename.items() if k not in shadow})
+        return [sub.visit(x) for x in body_nodes]
+
     def visit_FunctionDef(self, n):
+        # the nested function is a binding of the enclosing scope (renamed like any local) and a closure over it
+        if n.name in self.rename:
+            n.name = self.rename[n.name]
+        params = [a.arg for a in n.args.posonlyargs + n.args.args + n.args.kwonlyargs] + (
+            [n.args.vararg.arg] if n.args.vararg else []) + ([n.args.kwarg.arg] if n.args.kwarg else [])
+        local_stores = {x.id for s_ in n.body for x in ast.walk(s_) if isinstance(x, ast.Name) and isinstance(x.ctx, ast.Store)} - {
+            t for s_ in n.body for x in ast.walk(s_) if isinstance(x, (ast.Nonlocal, ast.Global)) for t in x.names}
+        n.body = self._inner(params + sorted(local_stores), n.body)
+        n.args.defaults = [self.visit(d) for d in n.args.defaults]
         return n
 
-    visit_Lambda = visit_FunctionDef
+    def visit_Lambda(self, n):
+        params = [a.arg for a in n.args.posonlyargs + n.args.args + n.args.kwonlyargs]
+        n.body = self._inner(params, [n.body])[0]
+        return n
 
 
 def _simple(e):
@@ -259,7 +278,7 @@ class Inliner:
             return None
         return h, mapping
 
-    def _instantiate(self, h, mapping, caller_returns=False, rename_override=None):
+    def _instantiate(self, h, mapping, caller_returns=False, rename_override=None, reuse=()):
         fn, kind, cls, body = h
         _counter[0] += 1
         tag = '__inl%d' % _counter[0]
@@ -271,6 +290,10 @@ class Inliner:
                 subst[p] = e
             else:
                 tmp = p + tag
+                if caller_returns and isinstance(e, ast.Call) and len(e.args) == 1 and isinstance(e.args[0], ast.Name) \
+                        and not e.keywords and self._match(e) is not None:
+                    # `return f(g(x))`: x is dead after the statement, so g's result may take its name (x = g(x))
+                    tmp = e.args[0].id
                 pre.append(ast.Assign(targets=[ast.Name(id=tmp, ctx=ast.Store())], value=A.clone(e)))
                 subst[p] = ast.Name(id=tmp, ctx=ast.Load())
                 if stored:
@@ -285,7 +308,7 @@ class Inliner:
         # parameters that are re-assigned inside the helper become locals too
         for p in list(subst):
             if p in locals_:
-                if caller_returns and isinstance(mapping[p], ast.Name):
+                if (caller_returns or p in reuse) and isinstance(mapping[p], ast.Name):
                     # `return helper(x)`: the caller is done with x, the helper may rebind it in place
                     subst[p] = mapping[p]
                     rename[p] = mapping[p].id
@@ -374,7 +397,11 @@ class Inliner:
             return None         # a generator helper is inlined exactly where it is delegated to with `yield from`
         if h[0].name in self.anywhere_returns and mode != 'return':
             return None
-        pre, body = self._instantiate(h, mapping, caller_returns=(mode == 'return'))
+        reuse = ()
+        if mode == 'assign' and isinstance(st.targets[0], ast.Name):
+            # `x = helper(x)`: the helper may update its parameter in place of the caller's x
+            reuse = tuple(p_ for p_, a_ in mapping.items() if isinstance(a_, ast.Name) and a_.id == st.targets[0].id)
+        pre, body = self._instantiate(h, mapping, caller_returns=(mode == 'return'), reuse=reuse)
         if mode == 'return':
             out = pre + body
             if not _ends_with_return(out):
@@ -1025,8 +1052,11 @@ def inline_nested_procedures(fn):
     done = 0
     for blk in _block_lists(fn):
         for d in [x for x in blk if isinstance(x, ast.FunctionDef)]:
-            if d.name in PINNED_NESTED or d.decorator_list or d.args.args or d.args.posonlyargs or d.args.vararg \
-                    or d.args.kwarg or d.args.kwonlyargs or A.contains_yield(d):
+            if d.name in PINNED_NESTED or d.decorator_list or d.args.posonlyargs or d.args.vararg \
+                    or d.args.kwarg or d.args.kwonlyargs or d.args.defaults or A.contains_yield(d):
+                continue
+            pparams = [a.arg for a in d.args.args]
+            if any(isinstance(x, ast.Name) and x.id in pparams and isinstance(x.ctx, ast.Store) for x in ast.walk(d)):
                 continue
             if any(isinstance(x, ast.Return) for x in A.walk_stmts(d.body)):
                 continue
@@ -1035,11 +1065,15 @@ def inline_nested_procedures(fn):
             loads = [x for x in ast.walk(fn) if isinstance(x, ast.Name) and x.id == d.name and not any(x is y for y in ast.walk(d))]
             if len(loads) != 1:
                 continue
+            # the name must have this one definition only (callbacks defined per branch are NOT procedures to inline)
+            if len([x for x in ast.walk(fn) if isinstance(x, ast.FunctionDef) and x.name == d.name]) != 1:
+                continue
             site = None
             for b2 in _block_lists(fn):
                 for st in b2:
                     if isinstance(st, ast.Expr) and isinstance(st.value, ast.Call) and st.value.func is loads[0] \
-                            and not st.value.args and not st.value.keywords:
+                            and len(st.value.args) == len(pparams) and all(_simple(a) and not isinstance(a, ast.Starred) for a in st.value.args) \
+                            and not st.value.keywords:
                         site = (b2, st)
             if site is None:
                 continue
@@ -1050,7 +1084,9 @@ def inline_nested_procedures(fn):
             outer = {x.id for x in ast.walk(fn) if isinstance(x, ast.Name) and not any(x is y for y in ast.walk(d))}
             if own & outer:
                 continue
-            body = [A.clone(x) for x in _body(d) if not isinstance(x, (ast.Nonlocal, ast.Global))]
+            b2_, st_ = site
+            pmap = dict(zip(pparams, st_.value.args))
+            body = [_Subst(pmap, {}).visit(A.clone(x)) if pmap else A.clone(x) for x in _body(d) if not isinstance(x, (ast.Nonlocal, ast.Global))]
             if not body:
                 body = [ast.copy_location(ast.Pass(), d)]
             b2, st = site
@@ -1384,6 +1420,18 @@ def ifexp_assign_to_if(tree):
             if isinstance(st, ast.Try):
                 for h in st.handlers:
                     h.body = fix(h.body)
+            if isinstance(st, ast.Return) and isinstance(st.value, ast.IfExp):
+                r1 = ast.Return(value=st.value.body)
+                r2 = ast.Return(value=st.value.orelse)
+                new = ast.If(test=st.value.test, body=[r1], orelse=[])
+                for x in (new, r1, r2):
+                    ast.copy_location(x, st)
+                ast.fix_missing_locations(new)
+                ast.fix_missing_locations(r2)
+                out.append(new)
+                out.append(r2)
+                done += 1
+                continue
             if isinstance(st, ast.Assign) and len(st.targets) == 1 and isinstance(st.targets[0], (ast.Name, ast.Attribute)) \
                     and isinstance(st.value, ast.IfExp):
                 a_ = ast.Assign(targets=[A.clone(st.targets[0])], value=st.value.body)
@@ -1668,6 +1716,12 @@ def normalise(tree):
     stats['priming_loops_rotated'] = rotate_priming_loops(tree)
     stats['while_true_break'] = while_true_break_to_condition(tree)
     stats['else_after_exit_flattened'] = flatten_else_after_exit(tree)
+    # helper bodies are brought into their own canonical form first (a helper that only builds a list in a loop and returns
+    # it becomes a single `return [comprehension]` and can then be inlined as an expression)
+    tree.body, _k0 = loops_to_comprehensions(tree.body)
+    for hf in [n for n in ast.walk(tree) if isinstance(n, ast.FunctionDef) and n.name.startswith('_')
+               and not n.name.startswith('__') and n.name not in PINNED_PRIVATE]:
+        inline_single_use_locals(hf)
     stats['helpers_inlined'] = Inliner(tree).run()
     stats['unswitched_on_flag'] = unswitch_on_flag(tree)
     stats['bool_tests_simplified'] = simplify_bool_tests(tree)
